@@ -77,7 +77,11 @@ def load_plugins(config: 'ConfigService', custom=None) -> List['Plugin']:
 
 def __plugin_order(plugin: 'Plugin') -> int:
     try:
-        return plugin.order() or 0
+        order = plugin.order() or 0
+        if not isinstance(order, (int, float)):
+            # the values are compared with each other when the plugins are sorted
+            raise TypeError("order of plugin is not a number: %r" % (order,))
+        return order
     except Exception as e:
         # a plugin that cannot tell us its order still gets loaded, it just gets the default order
         logging.debug("Could not get order of plugin %s: %s", plugin.name, e)
